@@ -15,7 +15,7 @@ TEXT = ("(a) run-time contract on every CaseNode._merge call: the result is the 
 
 
 def post(nmfu, c, prog, flags):
-    if not prog["name"].startswith(("case/", "caseE/")):
+    if not prog["name"].startswith(("case/", "caseE/", "caseM/")):
         return None
     try:
         spec = case_ref.spec_from_source(nmfu, prog["src"])
@@ -41,7 +41,7 @@ def main():
             if srcs is None:
                 srcs = {x["name"]: x["src"] for x in gen.case_programs() + gen.case_programs(empty_bodies=True)}
             kind = "ref"
-            if o["prog"].startswith("caseE/") and "prescribes no clause" in p["msg"] and "the machine runs [('set'" in p["msg"]:
+            if o["prog"].startswith(("caseE/", "caseM/")) and "prescribes no clause" in p["msg"] and "the machine runs [('set'" in p["msg"]:
                 kind = "empty-body-provisional"
             rep.bounded_violation(Finding("C08", "C08/ref/CaseNode.convert/runs-the-matching-clause", f"{o['prog']}|{' '.join(o['flags'])}|{kind}",
                                   f"{o['prog']} [{' '.join(o['flags'])}]: {p['msg']}", replay={"program": o["prog"], "source": srcs.get(o["prog"]), "flags": o["flags"]}, replayed=True))
